@@ -398,6 +398,29 @@ func c10RunOne(c *ev.Ctx, forcedRef string, directed func(si int, dsPaths []stri
 		if directed != nil {
 			nops = len(plan)
 		}
+		if directed == nil && !sameSize && r.Chance(1, 6) {
+			// a dataset without attributes gets ONE attribute that is too large for its header
+			// (dense storage holding a single object), which is replaced by a value of another
+			// size and then joined by others
+			for _, p := range dsPaths {
+				if po := prev.Get(p); po != nil && po.AttrsRes.OK() && len(po.Attrs) == 0 {
+					mk := func(n int) *hx.Val {
+						b := make([]byte, n)
+						for i := range b {
+							b[i] = byte('a' + (i+n)%26)
+						}
+						return &hx.Val{Kind: "str", S: []string{string(b)}}
+					}
+					plan = []c10Intent{{choice: 0, openPath: p, name: "lonely", val: mk(r.Range(300, 3000))}, {choice: 0, openPath: p, name: "lonely", val: mk(r.Range(260, 3000))}}
+					for j := 0; j < r.Range(3, 14); j++ {
+						plan = append(plan, c10Intent{choice: 0, openPath: p, name: fmt.Sprintf("joined%d", j), val: mk(r.Range(40, 400))})
+					}
+					nops = len(plan)
+					kindsSeen["single-object-dense-storage"] = true
+					break
+				}
+			}
+		}
 		type touch struct {
 			attrs map[string]*hx.Val // nil value = deleted
 			data  *hx.Val
